@@ -45,7 +45,8 @@ Definition W : Z := io_flag_waitable.
 Definition K : bcheck :=
   {| bc_sb := bc_should_block; bc_cl := bc_close; bc_fdclosed := bc_fiber_fd_closed;
      bc_fc := bc_fcntl; bc_io := bc_ioctl;
-     fc_managed := fcntl_managed_only; io_managed := ioctl_managed_only |}.
+     fc_managed := fcntl_managed_only; io_managed := ioctl_managed_only;
+     fc_tracks := fcntl_tracks_mode |}.
 Definition waiting_shims : list shim := filter waits shims.
 
 Definition sb_guard_eqb (a b : sb_guard) : bool :=
@@ -58,7 +59,7 @@ Definition has_guard (g : sb_guard) : bool := existsb (sb_guard_eqb g) sb_guards
 (* the table is the one the model was written for: 18 shims, every shim calls
    its own libc function and waits for the direction of its transfer, every call
    with a flags argument honours MSG_DONTWAIT, should_block has its three guards,
-   the mask blocks a BLOCKING|WAITABLE descriptor and ignores unmanaged ones *)
+   the mask blocks a BLOCKING|WAITABLE descriptor *)
 Definition table_sane_b : bool :=
   Nat.eqb (length shims) 18 &&
   forallb (fun s => Z.eqb (shim_id_code (sh_id s)) (shim_id_code (sh_real s)) &&
@@ -66,7 +67,10 @@ Definition table_sane_b : bool :=
   forallb (fun s => implb (has_flags_arg (sh_id s)) (sh_dontwait s)) waiting_shims &&
   has_guard GNotLocked && has_guard GInit && has_guard GBelowMax &&
   Z.eqb B 1 && Z.eqb W 2 &&
-  mask_blocks_when_blocking B W sb_mask && mask_ignores_unmanaged B W sb_mask.
+  mask_blocks_when_blocking B W sb_mask.
+(* a descriptor the library does not manage (byte 0, or BLOCKING alone after
+   FIONBIO 0 on it) never makes a shim wait *)
+Definition mask_unmanaged_b : bool := mask_ignores_unmanaged B W sb_mask.
 Definition blocking_table_b : bool := forallb blocking_ok waiting_shims.
 Definition mask_b : bool := mask_respects_blocking_bit B W sb_mask.
 Definition bounds_b : bool := all_checked K.
@@ -77,6 +81,16 @@ Definition wait_layer_b : bool :=
   ev_close_unlocks && ev_wait_locks && ev_wait_ors_in && ev_wait_ors_out && ev_wait_oneshot &&
   ev_wait_arms && ev_wait_links && ev_wait_enqueues && ev_wait_sets_waiting &&
   ev_wait_unlock_after_switch && ev_wait_yields && ev_wait_reports_close && ev_wait_order_ok.
+
+(* fcntl(F_SETFL, v) follows v & O_NONBLOCK for every v; F_GETFL reports the caller's mode *)
+Definition fcntl_tracks_b : bool := fcntl_tracks_mode.
+(* the retry decision is taken on the errno of the real call just made: the source
+   re-reads errno on the kernel thread the fiber resumed on.  When this is false the
+   identification "tested errno = errno of the last real call" (built into after_real)
+   is not justified for >= 2 kernel threads: gcc keeps the __errno_location() of the
+   thread the fiber ran on before it waited.  This is below the source-level model; the
+   differential run (2 kernel threads) is what exhibits it. *)
+Definition errno_fresh_b : bool := errno_fresh.
 
 (* should_block as the shims evaluate it, from the generated mask *)
 Definition sb (max_fd : Z) (locked inited : bool) (fd fl : Z) : bool :=
@@ -159,6 +173,17 @@ Proof.
 Qed.
 Print Assumptions blocking_mode_blocks.
 
+Theorem unmanaged_never_blocks :
+  mask_unmanaged_b = true -> forall max_fd locked inited fd fl,
+  fl = 0 \/ fl = B -> sb max_fd locked inited fd fl = false.
+Proof.
+  intros M max_fd locked inited fd fl Hfl. unfold mask_unmanaged_b, mask_ignores_unmanaged in M.
+  apply andb_prop in M as [M0 MB]. unfold sb, should_block.
+  destruct Hfl as [->| ->]; [destruct (mask_true B W sb_mask 0)|destruct (mask_true B W sb_mask B)];
+    try discriminate; apply andb_false_r.
+Qed.
+Print Assumptions unmanaged_never_blocks.
+
 (* ---- 3. non-blocking mode returns immediately --------------------------- *)
 (* BLOCKING cleared (fcntl O_NONBLOCK / ioctl FIONBIO 1) at every test, or
    MSG_DONTWAIT passed to a call that has a flags argument: exactly one real
@@ -200,6 +225,22 @@ Proof.
   - intros s real wres Hs. apply prewait_waits; auto.
 Qed.
 Print Assumptions shim_nonblocking_immediate_refutable.
+
+(* with mode tracking, after F_SETFL v on a managed descriptor the BLOCKING bit is set
+   exactly when v has no O_NONBLOCK, whatever the byte was before *)
+Theorem mode_follows_setfl :
+  fcntl_tracks_b = true -> table_sane_b = true ->
+  forall fl nonblock, In fl (all_flag_values B W) ->
+  (Z.land (fl_setfl B fl nonblock) B = 0 <-> nonblock = true) /\
+  Z.land (fl_setfl B fl nonblock) W = Z.land fl W.
+Proof.
+  intros _ T fl nb Hin. unfold table_sane_b in T. repeat (apply andb_prop in T as [T ?]).
+  repeat match goal with H : Z.eqb _ _ = true |- _ => apply Z.eqb_eq in H end.
+  assert (HB : B = 1) by assumption. assert (HW : W = 2) by assumption.
+  unfold all_flag_values in Hin. rewrite HB, HW in *. cbn in Hin.
+  destruct Hin as [<-|[<-|[<-|[<-|[]]]]]; destruct nb; cbn; split; split; intros; try reflexivity; try discriminate.
+Qed.
+Print Assumptions mode_follows_setfl.
 
 (* ---- 4. a bad descriptor never indexes outside the tables --------------- *)
 (* for EVERY fd : Z (negative, >= max_fd, closed) and every flag byte: all index
